@@ -1,8 +1,10 @@
 (* C04 — timeout wrappers: executable interleaving model.  No proofs in this file.
 
    Anchors (go-zero):
-     rest/handler/timeouthandler.go      timeoutHandler.ServeHTTP, timeoutWriter
-     rest/engine.go                      checkedTimeout (per-route / global timeout)
+     rest/handler/timeouthandler.go      timeoutHandler.ServeHTTP, timeoutWriter (incl. Flush)
+     rest/engine.go                      newEngine, addRoutes, buildSSERoutes, checkedTimeout,
+                                         the timeout line of buildChainWithNativeMiddlewares, withTimeout
+     rest/server.go                      WithTimeout, WithSSE (route options)
      zrpc/internal/serverinterceptors/timeoutinterceptor.go   UnaryTimeoutInterceptor
      zrpc/internal/clientinterceptors/timeoutinterceptor.go   TimeoutInterceptor
      core/fx/timeout.go                  DoWithTimeout
@@ -23,6 +25,7 @@
    Data abstraction: header keys/values, bytes, panic values, results and errors
    are integers; http.Header is an association list with unique, sorted keys. *)
 From Coq Require Import List ZArith Bool.
+From GZgen Require Import C04Consts.
 Import ListNotations.
 Open Scope Z_scope.
 
@@ -61,11 +64,12 @@ Inductive act :=
 | ASet (k v : Z)          (* w.Header().Set(k, v) *)
 | AAdd (k v : Z)          (* w.Header().Add(k, v) *)
 | ADel (k : Z)            (* w.Header().Del(k) *)
-| AWriteHeader (c : Z)    (* w.WriteHeader(c) *)
+| AWriteHeader (c : Z)    (* w.WriteHeader(c), any integer: invalid, 1xx informational, final *)
 | AWrite (bs : list Z)    (* w.Write(bs) *)
 | ACheckCtx               (* select { case <-ctx.Done(): return; default: } ; a script
                              without it ignores the context altogether *)
-| APanic (p : Z).         (* panic(p) *)
+| APanic (p : Z)          (* panic(p) *)
+| AFlush.                 (* if f, ok := w.(http.Flusher); ok { f.Flush() } *)
 
 Inductive pval := PUser (p : Z) | PBadCode (c : Z).   (* "invalid WriteHeader code c" *)
 
@@ -78,42 +82,54 @@ Inductive ares :=
 | RCtx (fired : bool).    (* what ACheckCtx saw *)
 
 (* ------------------------------------------------------------------ *)
-(* the real http.ResponseWriter, as the client sees it                  *)
+(* the real http.ResponseWriter, as the client sees it (net/http server semantics) *)
 
 Record rwriter := mkRW
-  { rlive : hdrs;                   (* w.Header(), the live map *)
-    rres : option (Z * hdrs);       (* status line + headers frozen by the first WriteHeader/Write *)
-    rbody : list Z }.
+  { rfl : bool;                     (* it implements http.Flusher *)
+    rlive : hdrs;                   (* w.Header(), the live map *)
+    rres : option (Z * hdrs);       (* status line + headers frozen by the first final WriteHeader / Write / Flush *)
+    rbody : list Z;
+    rinfo : list (Z * hdrs) }.      (* 1xx informational responses already sent, each with the headers of that moment *)
 
-Definition rw_fresh (h0 : hdrs) : rwriter := mkRW h0 None [].
+Definition rw_fresh (fl : bool) (h0 : hdrs) : rwriter := mkRW fl h0 None [] [].
 
 Definition rw_hdr (f : hdrs -> hdrs) (w : rwriter) : rwriter :=
-  mkRW (f (rlive w)) (rres w) (rbody w).
+  mkRW (rfl w) (f (rlive w)) (rres w) (rbody w) (rinfo w).
+
+(* net/http: 100..199 except 101 are sent at once, do not end the header phase and do
+   not clear the header map *)
+Definition is_info (c : Z) : bool := (100 <=? c) && (c <=? 199) && negb (c =? 101).
 
 Definition rw_wh (c : Z) (w : rwriter) : rwriter :=
   match rres w with
   | Some _ => w
-  | None => mkRW (rlive w) (Some (c, rlive w)) (rbody w)
+  | None =>
+    if is_info c then mkRW (rfl w) (rlive w) None (rbody w) (rinfo w ++ [(c, rlive w)])
+    else mkRW (rfl w) (rlive w) (Some (c, rlive w)) (rbody w) (rinfo w)
   end.
 
 Definition rw_write (bs : list Z) (w : rwriter) : rwriter :=
-  let w' := rw_wh 200 w in mkRW (rlive w') (rres w') (rbody w' ++ bs).
+  let w' := rw_wh 200 w in mkRW (rfl w') (rlive w') (rres w') (rbody w' ++ bs) (rinfo w').
+
+(* http.Flusher.Flush of the real writer: sends the header if it was not sent *)
+Definition rw_flush (w : rwriter) : rwriter := if rfl w then rw_wh 200 w else w.
 
 (* ------------------------------------------------------------------ *)
-(* timeoutWriter{h, wbuf, code, wroteHeader} (timedOut kept separately)  *)
+(* timeoutWriter{h, wbuf, code, wroteHeader, flushed} (timedOut kept separately)  *)
 
-Record tbuf := mkBuf { bh : hdrs; bbody : list Z; bcode : Z; bwrote : bool }.
+Record tbuf := mkBuf { bh : hdrs; bbody : list Z; bcode : Z; bwrote : bool; bfl : bool }.
 
-Definition buf0 : tbuf := mkBuf [] [] 200 false.
+Definition buf0 : tbuf := mkBuf [] [] 200 false false.
 
 Definition bad_code (c : Z) : bool := (c <? 100) || (599 <? c).   (* checkWriteHeaderCode *)
 
 Definition len (bs : list Z) : Z := Z.of_nat (length bs).
 
 Definition buf_hdr (f : hdrs -> hdrs) (b : tbuf) : tbuf :=
-  mkBuf (f (bh b)) (bbody b) (bcode b) (bwrote b).
+  mkBuf (f (bh b)) (bbody b) (bcode b) (bwrote b) (bfl b).
 
-(* one handler action against the timeoutWriter; [to] = tw.timedOut *)
+(* one handler action (other than Flush) against the timeoutWriter; [to] = tw.timedOut.
+   Note that a 1xx code is recorded like any other status (see notes: known finding). *)
 Definition tw_act (to : bool) (b : tbuf) (a : act) : tbuf * ares :=
   match a with
   | ASet k v => (buf_hdr (hset k [v]) b, RNone)
@@ -123,20 +139,39 @@ Definition tw_act (to : bool) (b : tbuf) (a : act) : tbuf * ares :=
     if bwrote b then (b, RNone)
     else if bad_code c then (b, RPanic (PBadCode c))
     else if to then (b, RNone)
-    else (mkBuf (bh b) (bbody b) c true, RNone)
+    else (mkBuf (bh b) (bbody b) c true (bfl b), RNone)
   | AWrite bs =>
     if to then (b, RWriteTimeout)
     else
       let c := if bwrote b then bcode b else 200 in
-      (mkBuf (bh b) (bbody b ++ bs) c true, RWriteOk (len bs))
+      (mkBuf (bh b) (bbody b ++ bs) c true (bfl b), RWriteOk (len bs))
   | ACheckCtx => (b, RNone)
   | APanic p => (b, RPanic (PUser p))
+  | AFlush => (b, RNone)
+  end.
+
+(* timeoutWriter.Flush (as repaired by 696f32f): nothing unless the real writer is a
+   Flusher; under tw.mu; nothing after the timeout; the handler's headers, the
+   recorded status (once) and the buffered bytes go to the real writer *)
+Definition tw_flush (to : bool) (b : tbuf) (w : rwriter) : tbuf * rwriter :=
+  if negb (rfl w) then (b, w)
+  else if to then (b, w)
+  else
+    let w1 := rw_hdr (fun d => overlay d (bh b)) w in
+    let c := if bwrote b then bcode b else 200 in
+    let w2 := if bfl b then w1 else if c =? 200 then w1 else rw_wh c w1 in
+    (mkBuf (bh b) [] c true true, rw_write (bbody b) w2).
+
+Definition hact (to : bool) (bw : tbuf * rwriter) (a : act) : (tbuf * rwriter) * ares :=
+  match a with
+  | AFlush => (tw_flush to (fst bw) (snd bw), RNone)
+  | _ => let '(b', r) := tw_act to (fst bw) a in ((b', snd bw), r)
   end.
 
 (* the `done` branch: copy the buffered response to the real writer *)
 Definition flush (b : tbuf) (w : rwriter) : rwriter :=
   let w1 := rw_hdr (fun d => overlay d (bh b)) w in
-  let w2 := if bcode b =? 200 then w1 else rw_wh (bcode b) w1 in
+  let w2 := if (bcode b =? 200) || bfl b then w1 else rw_wh (bcode b) w1 in
   rw_write (bbody b) w2.
 
 (* the `ctx.Done()` branch *)
@@ -149,8 +184,8 @@ Definition reason : list Z := [82; 101; 113; 117; 101; 115; 116; 32; 84; 105; 10
 Definition timeout_write (k : kind) (w : rwriter) : rwriter :=
   rw_write reason (rw_wh (timeout_code k) w).
 
-Definition timeout_resp (h0 : hdrs) (k : kind) : rwriter :=
-  mkRW h0 (Some (timeout_code k, h0)) reason.
+Definition timeout_resp (fl : bool) (h0 : hdrs) (k : kind) : rwriter :=
+  mkRW fl h0 (Some (timeout_code k, h0)) reason [].
 
 (* ------------------------------------------------------------------ *)
 (* the LTS for timeoutHandler.ServeHTTP (non-exempt request)            *)
@@ -161,35 +196,36 @@ Inductive branch := BPanic | BDone | BTimeout.
 Inductive ev := EH | ED (k : kind) | ES (b : branch).
 
 Record state := mkSt
-  { tb : tbuf;            (* tw.h, tw.wbuf, tw.code, tw.wroteHeader *)
+  { tb : tbuf;            (* tw.h, tw.wbuf, tw.code, tw.wroteHeader, tw.flushed *)
     tto : bool;           (* tw.timedOut *)
     rw : rwriter;         (* the real writer *)
     hst : hstat;          (* handler goroutine: running / returned (done closed) / panicked (panicChan full) *)
     hrest : list act;     (* what the handler has still to do *)
     hexec : list act;     (* ghost: the actions it has executed, in order *)
     dk : option kind;     (* ctx.Err() *)
-    sst : sstat }.        (* ServeHTTP: in the select / returned / re-panicked *)
+    sst : sstat;          (* ServeHTTP: in the select / returned / re-panicked *)
+    sexec : list act }.   (* ghost: what the handler had executed when the timeout branch ran *)
 
-Definition init (h0 : hdrs) (script : list act) : state :=
-  mkSt buf0 false (rw_fresh h0) HRun script [] None SWait.
+Definition init (fl : bool) (h0 : hdrs) (script : list act) : state :=
+  mkSt buf0 false (rw_fresh fl h0) HRun script [] None SWait [].
 
 Definition h_step (s : state) : option (state * ares) :=
   match hst s with
   | HRun =>
     match hrest s with
     | [] =>       (* ServeHTTP of the handler returns; close(done) *)
-      Some (mkSt (tb s) (tto s) (rw s) HDone [] (hexec s) (dk s) (sst s), RNone)
+      Some (mkSt (tb s) (tto s) (rw s) HDone [] (hexec s) (dk s) (sst s) (sexec s), RNone)
     | ACheckCtx :: r =>
       match dk s with
-      | Some _ => Some (mkSt (tb s) (tto s) (rw s) HRun [] (hexec s ++ [ACheckCtx]) (dk s) (sst s), RCtx true)
-      | None => Some (mkSt (tb s) (tto s) (rw s) HRun r (hexec s ++ [ACheckCtx]) (dk s) (sst s), RCtx false)
+      | Some _ => Some (mkSt (tb s) (tto s) (rw s) HRun [] (hexec s ++ [ACheckCtx]) (dk s) (sst s) (sexec s), RCtx true)
+      | None => Some (mkSt (tb s) (tto s) (rw s) HRun r (hexec s ++ [ACheckCtx]) (dk s) (sst s) (sexec s), RCtx false)
       end
     | a :: r =>
-      let '(b', res) := tw_act (tto s) (tb s) a in
+      let '((b', w'), res) := hact (tto s) (tb s, rw s) a in
       match res with
       | RPanic p =>   (* recovered in the goroutine: panicChan <- p (buffered) *)
-        Some (mkSt b' (tto s) (rw s) (HPanicked p) [] (hexec s ++ [a]) (dk s) (sst s), res)
-      | _ => Some (mkSt b' (tto s) (rw s) HRun r (hexec s ++ [a]) (dk s) (sst s), res)
+        Some (mkSt b' (tto s) w' (HPanicked p) [] (hexec s ++ [a]) (dk s) (sst s) (sexec s), res)
+      | _ => Some (mkSt b' (tto s) w' HRun r (hexec s ++ [a]) (dk s) (sst s) (sexec s), res)
       end
     end
   | _ => None
@@ -198,7 +234,7 @@ Definition h_step (s : state) : option (state * ares) :=
 Definition d_step (k : kind) (s : state) : state :=
   match dk s with
   | Some _ => s
-  | None => mkSt (tb s) (tto s) (rw s) (hst s) (hrest s) (hexec s) (Some k) (sst s)
+  | None => mkSt (tb s) (tto s) (rw s) (hst s) (hrest s) (hexec s) (Some k) (sst s) (sexec s)
   end.
 
 Definition s_step (b : branch) (s : state) : option state :=
@@ -207,17 +243,17 @@ Definition s_step (b : branch) (s : state) : option state :=
     match b with
     | BPanic =>
       match hst s with
-      | HPanicked p => Some (mkSt (tb s) (tto s) (rw s) (hst s) (hrest s) (hexec s) (dk s) (SPanicRet p))
+      | HPanicked p => Some (mkSt (tb s) (tto s) (rw s) (hst s) (hrest s) (hexec s) (dk s) (SPanicRet p) (sexec s))
       | _ => None
       end
     | BDone =>
       match hst s with
-      | HDone => Some (mkSt (tb s) (tto s) (flush (tb s) (rw s)) (hst s) (hrest s) (hexec s) (dk s) SDoneRet)
+      | HDone => Some (mkSt (tb s) (tto s) (flush (tb s) (rw s)) (hst s) (hrest s) (hexec s) (dk s) SDoneRet (sexec s))
       | _ => None
       end
     | BTimeout =>
       match dk s with
-      | Some k => Some (mkSt (tb s) true (timeout_write k (rw s)) (hst s) (hrest s) (hexec s) (dk s) (STimeoutRet k))
+      | Some k => Some (mkSt (tb s) true (timeout_write k (rw s)) (hst s) (hrest s) (hexec s) (dk s) (STimeoutRet k) (hexec s))
       | None => None
       end
     end
@@ -254,32 +290,55 @@ Fixpoint run_strict (s : state) (sched : list ev) : option (state * list ares) :
   end.
 
 (* Reference semantics of the handler alone: its actions executed one after the
-   other against a timeoutWriter that never times out, up to the first panic.
-   [complete] is the response the client gets when the `done` branch then copies
-   that buffer to a fresh real writer. *)
-Fixpoint href (b : tbuf) (acts : list act) : tbuf * option pval :=
+   other against a timeoutWriter that never times out (and, through Flush, against
+   the real writer), up to the first panic.  [committed] is what has reached the
+   real writer by then (nothing, unless the handler flushed); [complete] is the
+   response the client gets when the `done` branch then copies the buffer. *)
+Fixpoint href (bw : tbuf * rwriter) (acts : list act) : (tbuf * rwriter) * option pval :=
   match acts with
-  | [] => (b, None)
+  | [] => (bw, None)
   | a :: r =>
-    let '(b', res) := tw_act false b a in
+    let '(bw', res) := hact false bw a in
     match res with
-    | RPanic p => (b', Some p)
-    | _ => href b' r
+    | RPanic p => (bw', Some p)
+    | _ => href bw' r
     end
   end.
 
-Definition complete (h0 : hdrs) (acts : list act) : rwriter :=
-  flush (fst (href buf0 acts)) (rw_fresh h0).
+Definition start (fl : bool) (h0 : hdrs) : tbuf * rwriter := (buf0, rw_fresh fl h0).
 
-(* independent description of the same thing, used by the checker and related to
-   [complete] by theorems: status of the first WriteHeader/Write, all body chunks,
-   the final header map laid over the writer's own headers *)
-Fixpoint spec_status (acts : list act) : Z :=
+Definition committed (fl : bool) (h0 : hdrs) (acts : list act) : rwriter :=
+  snd (fst (href (start fl h0) acts)).
+
+Definition complete (fl : bool) (h0 : hdrs) (acts : list act) : rwriter :=
+  let bw := fst (href (start fl h0) acts) in flush (fst bw) (snd bw).
+
+Definition has_flush (acts : list act) : bool :=
+  existsb (fun a => match a with AFlush => true | _ => false end) acts.
+
+(* ------------------------------------------------------------------ *)
+(* Independent description of "the work's complete result", used by the checker and
+   related to [complete] by theorems.  It is what the handler's own calls mean on a
+   plain net/http writer: 1xx codes are informational (sent at once, not the status),
+   the status is that of the first final WriteHeader, or 200 at the first Write/Flush;
+   all body chunks; the handler's final header map (the one of its first Flush, if it
+   flushes) laid over the writer's own headers. *)
+
+(* the actions before the first (effective) Flush *)
+Fixpoint before_flush (acts : list act) : list act :=
+  match acts with
+  | [] => []
+  | AFlush :: _ => []
+  | a :: r => a :: before_flush r
+  end.
+
+Fixpoint spec_status (fl : bool) (acts : list act) : Z :=
   match acts with
   | [] => 200
-  | AWriteHeader c :: _ => c
+  | AWriteHeader c :: r => if is_info c then spec_status fl r else c
   | AWrite _ :: _ => 200
-  | _ :: r => spec_status r
+  | AFlush :: r => if fl then 200 else spec_status fl r
+  | _ :: r => spec_status fl r
   end.
 
 Fixpoint spec_body (acts : list act) : list Z :=
@@ -299,74 +358,62 @@ Definition spec_hdr_act (m : hdrs) (a : act) : hdrs :=
 
 Definition spec_hdrs (acts : list act) : hdrs := fold_left spec_hdr_act acts [].
 
-Definition spec_complete (h0 : hdrs) (acts : list act) : rwriter :=
+(* the 1xx responses a plain net/http writer would send: every informational
+   WriteHeader before the first final one / Write / effective Flush *)
+Fixpoint spec_infos (fl : bool) (h0 : hdrs) (m : hdrs) (acts : list act) : list (Z * hdrs) :=
+  match acts with
+  | [] => []
+  | AWriteHeader c :: r => if is_info c then (c, overlay h0 m) :: spec_infos fl h0 m r else []
+  | AWrite _ :: _ => []
+  | AFlush :: r => if fl then [] else spec_infos fl h0 m r
+  | a :: r => spec_infos fl h0 (spec_hdr_act m a) r
+  end.
+
+(* is there an informational WriteHeader before the first commit?  (then go-zero's
+   timeoutWriter records it as the status: known finding) *)
+Fixpoint info_first (fl : bool) (acts : list act) : bool :=
+  match acts with
+  | [] => false
+  | AWriteHeader c :: r => is_info c
+  | AWrite _ :: _ => false
+  | AFlush :: r => if fl then false else info_first fl r
+  | _ :: r => info_first fl r
+  end.
+
+Definition spec_frozen (fl : bool) (h0 : hdrs) (acts : list act) : hdrs :=
+  overlay h0 (spec_hdrs (if fl then before_flush acts else acts)).
+
+(* the client's view of a writer: 1xx responses, status + headers, body *)
+Definition view := (list (Z * hdrs) * option (Z * hdrs) * list Z)%type.
+
+Definition rw_view (w : rwriter) : view := (rinfo w, rres w, rbody w).
+
+Definition spec_view (fl : bool) (h0 : hdrs) (acts : list act) : view :=
+  (spec_infos fl h0 [] acts, Some (spec_status fl acts, spec_frozen fl h0 acts), spec_body acts).
+
+(* without an effective Flush the whole writer is described (live map included) *)
+Definition spec_complete (fl : bool) (h0 : hdrs) (acts : list act) : rwriter :=
   let h := overlay h0 (spec_hdrs acts) in
-  mkRW h (Some (spec_status acts, h)) (spec_body acts).
+  mkRW fl h (Some (spec_status false acts, h)) (spec_body acts) [].
 
 (* does executing [acts] (deadline not hit) end in a panic, and which *)
-Fixpoint spec_panic (wrote : bool) (acts : list act) : option pval :=
+Fixpoint spec_panic (fl : bool) (wrote : bool) (acts : list act) : option pval :=
   match acts with
   | [] => None
   | APanic p :: _ => Some (PUser p)
   | AWriteHeader c :: r =>
-    if wrote then spec_panic wrote r
-    else if bad_code c then Some (PBadCode c) else spec_panic true r
-  | AWrite _ :: r => spec_panic true r
-  | _ :: r => spec_panic wrote r
+    if wrote then spec_panic fl wrote r
+    else if bad_code c then Some (PBadCode c) else spec_panic fl true r
+  | AWrite _ :: r => spec_panic fl true r
+  | AFlush :: r => spec_panic fl (wrote || fl) r
+  | _ :: r => spec_panic fl wrote r
   end.
 
 (* ------------------------------------------------------------------ *)
-(* several requests through ONE middleware instance                     *)
-(* timeoutHandler{handler, dt} is immutable; ServeHTTP allocates the context, the
-   channels and the timeoutWriter per call.  The system state is therefore a list of
-   per-request components that share nothing; an event names the request whose
-   thread (H, D or S) moves.  An abandoned handler of an earlier request (it ignored
-   its context) is simply an H thread of its own component that is still running. *)
-
-Fixpoint upd_nth {A : Type} (n : nat) (f : A -> A) (l : list A) : list A :=
-  match l, n with
-  | [], _ => []
-  | x :: r, O => f x :: r
-  | x :: r, S n' => x :: upd_nth n' f r
-  end.
-
-Definition mev := (nat * ev)%type.
-
-Definition minit (reqs : list (hdrs * list act)) : list state :=
-  map (fun r => init (fst r) (snd r)) reqs.
-
-Definition mstepT (ss : list state) (e : mev) : list state :=
-  upd_nth (fst e) (fun s => stepT s (snd e)) ss.
-
-Definition mrun (ss : list state) (sched : list mev) : list state := fold_left mstepT sched ss.
-
-(* the events of request [i], in order *)
-Definition proj (i : nat) (sched : list mev) : list ev :=
-  map snd (filter (fun e => Nat.eqb (fst e) i) sched).
-
-Fixpoint mrun_strict (ss : list state) (sched : list mev)
-  : option (list state * list (nat * ares)) :=
-  match sched with
-  | [] => Some (ss, [])
-  | (i, e) :: r =>
-    match nth_error ss i with
-    | None => None
-    | Some s =>
-      match step s e with
-      | None => None
-      | Some (s', o) =>
-        match mrun_strict (upd_nth i (fun _ => s') ss) r with
-        | None => None
-        | Some (ss', os) => Some (ss', match e with EH => (i, o) :: os | _ => os end)
-        end
-      end
-    end
-  end.
-
-(* ------------------------------------------------------------------ *)
-(* exempt requests (Upgrade: websocket, Accept: text/event-stream) and
-   TimeoutHandler(d <= 0): the handler runs against the real writer, in the
-   serving goroutine; no S thread, D only matters to ACheckCtx.            *)
+(* exempt requests (Upgrade: websocket, Accept: text/event-stream),
+   TimeoutHandler(d <= 0) and routes without the timeout middleware: the handler
+   runs against the real writer, in the serving goroutine; no S thread, D only
+   matters to ACheckCtx.                                                   *)
 
 Definition bad_code_rw (c : Z) : bool := (c <? 100) || (999 <? c).   (* net/http's own check *)
 
@@ -383,13 +430,14 @@ Definition rw_act (w : rwriter) (a : act) : rwriter * ares :=
   | AWrite bs => (rw_write bs w, RWriteOk (len bs))
   | ACheckCtx => (w, RNone)
   | APanic p => (w, RPanic (PUser p))
+  | AFlush => (rw_flush w, RNone)
   end.
 
 Record xstate := mkX
   { xrw : rwriter; xhst : hstat; xrest : list act; xexec : list act; xdk : option kind }.
 
-Definition xinit (h0 : hdrs) (script : list act) : xstate :=
-  mkX (rw_fresh h0) HRun script [] None.
+Definition xinit (fl : bool) (h0 : hdrs) (script : list act) : xstate :=
+  mkX (rw_fresh fl h0) HRun script [] None.
 
 Definition xstep (s : xstate) (e : ev) : option (xstate * ares) :=
   match e with
@@ -439,9 +487,106 @@ Fixpoint xrun_strict (s : xstate) (sched : list ev) : option (xstate * list ares
     end
   end.
 
-Definition direct (h0 : hdrs) (acts : list act) : rwriter :=
-  fold_left (fun w a => fst (rw_act w a)) acts (rw_fresh h0).
+Definition direct (fl : bool) (h0 : hdrs) (acts : list act) : rwriter :=
+  fold_left (fun w a => fst (rw_act w a)) acts (rw_fresh fl h0).
 
+(* ------------------------------------------------------------------ *)
+(* several requests through ONE middleware instance / ONE server         *)
+(* timeoutHandler{handler, dt} is immutable; ServeHTTP allocates the context, the
+   channels and the timeoutWriter per call; the engine builds one chain per route at
+   bind time and nothing in it is written afterwards.  The system state is therefore a
+   list of per-request components that share nothing; an event names the request whose
+   thread (H, D or S) moves.  An abandoned handler of an earlier request (it ignored
+   its context) is simply an H thread of its own component that is still running.
+   A component is a wrapped request (the LTS above) or an unwrapped one (exempt
+   request, route without timeout). *)
+
+Fixpoint upd_nth {A : Type} (n : nat) (f : A -> A) (l : list A) : list A :=
+  match l, n with
+  | [], _ => []
+  | x :: r, O => f x :: r
+  | x :: r, S n' => x :: upd_nth n' f r
+  end.
+
+Definition mev := (nat * ev)%type.
+
+Record request := mkReq { q_fl : bool; q_h0 : hdrs; q_script : list act }.
+
+Definition minit (reqs : list request) : list state :=
+  map (fun r => init (q_fl r) (q_h0 r) (q_script r)) reqs.
+
+Definition mstepT (ss : list state) (e : mev) : list state :=
+  upd_nth (fst e) (fun s => stepT s (snd e)) ss.
+
+Definition mrun (ss : list state) (sched : list mev) : list state := fold_left mstepT sched ss.
+
+(* the events of request [i], in order *)
+Definition proj (i : nat) (sched : list mev) : list ev :=
+  map snd (filter (fun e => Nat.eqb (fst e) i) sched).
+
+Fixpoint mrun_strict (ss : list state) (sched : list mev)
+  : option (list state * list (nat * ares)) :=
+  match sched with
+  | [] => Some (ss, [])
+  | (i, e) :: r =>
+    match nth_error ss i with
+    | None => None
+    | Some s =>
+      match step s e with
+      | None => None
+      | Some (s', o) =>
+        match mrun_strict (upd_nth i (fun _ => s') ss) r with
+        | None => None
+        | Some (ss', os) => Some (ss', match e with EH => (i, o) :: os | _ => os end)
+        end
+      end
+    end
+  end.
+
+(* mixed systems: wrapped and unwrapped requests side by side (one server) *)
+Inductive comp := CW (s : state) | CX (s : xstate).
+
+Definition cstep (c : comp) (e : ev) : option (comp * ares) :=
+  match c with
+  | CW s => match step s e with Some (s', r) => Some (CW s', r) | None => None end
+  | CX s => match xstep s e with Some (s', r) => Some (CX s', r) | None => None end
+  end.
+
+Definition cstepT (c : comp) (e : ev) : comp :=
+  match cstep c e with Some (c', _) => c' | None => c end.
+
+Definition crun (c : comp) (sched : list ev) : comp := fold_left cstepT sched c.
+
+Definition cinit (wrap : bool) (r : request) : comp :=
+  if wrap then CW (init (q_fl r) (q_h0 r) (q_script r))
+  else CX (xinit (q_fl r) (q_h0 r) (q_script r)).
+
+Definition cmstepT (cs : list comp) (e : mev) : list comp :=
+  upd_nth (fst e) (fun c => cstepT c (snd e)) cs.
+
+Definition cmrun (cs : list comp) (sched : list mev) : list comp := fold_left cmstepT sched cs.
+
+Fixpoint cmrun_strict (cs : list comp) (sched : list mev)
+  : option (list comp * list (nat * ares)) :=
+  match sched with
+  | [] => Some (cs, [])
+  | (i, e) :: r =>
+    match nth_error cs i with
+    | None => None
+    | Some c =>
+      match cstep c e with
+      | None => None
+      | Some (c', o) =>
+        match cmrun_strict (upd_nth i (fun _ => c') cs) r with
+        | None => None
+        | Some (cs', os) => Some (cs', match e with EH => (i, o) :: os | _ => os end)
+        end
+      end
+    end
+  end.
+
+Definition comp_rw (c : comp) : rwriter :=
+  match c with CW s => rw s | CX s => xrw s end.
 (* ------------------------------------------------------------------ *)
 (* which requests are wrapped, and deadlines                            *)
 
@@ -494,6 +639,77 @@ Definition client_deadline (opts : list Z) (default : Z) (parent : option Z) (no
 (* fx.DoWithTimeout(fn, t, WithContext(parent)?) *)
 Definition fx_deadline (t : Z) (parent : option Z) (now : Z) : option Z :=
   Some (with_timeout parent now t).
+
+(* ------------------------------------------------------------------ *)
+(* the rest engine: which timeout a route gets (rest/server.go route options,
+   rest/engine.go newEngine / addRoutes / buildSSERoutes / checkedTimeout /
+   buildChainWithNativeMiddlewares / withTimeout)                          *)
+
+(* request headers that matter: classification by the exemption test of ServeHTTP,
+   r.Header.Get(name) == value, literally (byte strings from C04Consts) *)
+Definition bstr := list Z.
+
+Fixpoint bstr_eqb (a b : bstr) : bool :=
+  match a, b with
+  | [], [] => true
+  | x :: a', y :: b' => (x =? y) && bstr_eqb a' b'
+  | _, _ => false
+  end.
+
+(* http.Header.Get on the (canonical) header names the executor sets: first value *)
+Fixpoint req_get (name : bstr) (hs : list (bstr * bstr)) : bstr :=
+  match hs with
+  | [] => []
+  | (n, v) :: r => if bstr_eqb n name then v else req_get name r
+  end.
+
+Definition classify (hs : list (bstr * bstr)) : reqkind :=
+  match exempt_headers with
+  | [(n1, v1); (n2, v2)] =>
+    if bstr_eqb (req_get n1 hs) v1 then RqWebsocket
+    else if bstr_eqb (req_get n2 hs) v2 then RqSSE
+    else RqPlain
+  | _ => RqPlain
+  end.
+
+Inductive ropt := OptTimeout (ns : Z) | OptSSE.     (* rest.WithTimeout(d) | rest.WithSSE() *)
+
+Record froutes := mkFR { fr_timeout : Z; fr_sse : bool }.   (* featuredRoutes{timeout, sse} *)
+
+Definition apply_opt (f : froutes) (o : ropt) : froutes :=
+  match o with
+  | OptTimeout t => mkFR t (fr_sse f)
+  | OptSSE => mkFR 0 true
+  end.
+
+(* Server.AddRoutes(rs, opts...) *)
+Definition route_conf (opts : list ropt) : froutes := fold_left apply_opt opts (mkFR 0 false).
+
+(* ng.timeout after newEngine(conf) and addRoutes of every group: the max *)
+Definition eng_timeout (conf_ms : Z) (groups : list froutes) : Z :=
+  fold_left (fun m g => if m <? fr_timeout g then fr_timeout g else m) groups (conf_ms * 1000000).
+
+(* the duration handed to handler.TimeoutHandler for a route of group [f]; 0 = no
+   TimeoutHandler in the chain (middleware switched off) *)
+Definition eng_route_dur (mw_timeout : bool) (conf_ms : Z) (f : froutes) : Z :=
+  if mw_timeout then checked_timeout (fr_timeout f) conf_ms else 0.
+
+(* withTimeout(): http.Server.ReadTimeout / WriteTimeout *)
+Definition srv_read_timeout (t : Z) : Z := if 0 <? t then 4 * t / 5 else 0.
+Definition srv_write_timeout (t : Z) : Z := if 0 <? t then 11 * t / 10 else 0.
+
+(* buildSSERoutes: the handler of a WithSSE() route first sets the event-stream
+   headers (keys 900+i, values 950+i for the i-th header of C04Consts.sse_route_headers) *)
+Definition sse_prefix : list act :=
+  map (fun i => ASet (900 + Z.of_nat i) (950 + Z.of_nat i)) (seq 0 (length sse_route_headers)).
+
+Definition route_script (f : froutes) (script : list act) : list act :=
+  if fr_sse f then sse_prefix ++ script else script.
+
+(* deadline of the context the route handler of group [f] runs under *)
+Definition eng_deadline (mw_timeout : bool) (conf_ms : Z) (f : froutes) (rq : reqkind)
+           (parent : option Z) (now : Z) : option Z :=
+  rest_deadline (eng_route_dur mw_timeout conf_ms f) rq parent now.
 
 (* ------------------------------------------------------------------ *)
 (* result-slot wrappers: UnaryTimeoutInterceptor and fx.DoWithTimeout    *)
